@@ -119,20 +119,26 @@ def gen_params(name="polymer", outpath=Path("polymer.itp"), inpath=[],
     for missing in find_missing_edges(meta_molecule, meta_molecule.molecule):
         LOGGER.warning(msg, **missing)
 
-    with deferred_open(outpath, 'w') as outfile:
-        header = [ ' '.join(sys.argv) + "\n" ]
-        header.append("Please cite the following papers:")
-        for citation in meta_molecule.molecule.citations:
-            # molecules also carry citation keys (e.g. the one of vermouth
-            # itself) that the bib files of the force field need not define
-            if citation not in meta_molecule.molecule.force_field.citations:
-                continue
-            cite_string =  citation_formatter(meta_molecule.molecule.force_field.citations[citation])
-            LOGGER.info("Please cite: " + cite_string)
-            header.append(cite_string)
+    try:
+        with deferred_open(outpath, 'w') as outfile:
+            header = [ ' '.join(sys.argv) + "\n" ]
+            header.append("Please cite the following papers:")
+            for citation in meta_molecule.molecule.citations:
+                # molecules also carry citation keys (e.g. the one of vermouth
+                # itself) that the bib files of the force field need not define
+                if citation not in meta_molecule.molecule.force_field.citations:
+                    continue
+                cite_string =  citation_formatter(meta_molecule.molecule.force_field.citations[citation])
+                LOGGER.info("Please cite: " + cite_string)
+                header.append(cite_string)
 
-        vermouth.gmx.itp.write_molecule_itp(meta_molecule.molecule, outfile,
-                                            moltype=name, header=header)
+            vermouth.gmx.itp.write_molecule_itp(meta_molecule.molecule, outfile,
+                                                moltype=name, header=header)
+    except Exception:
+        # discard the partially written temporary file, otherwise it
+        # would be delivered by the next successful write in this process
+        DeferredFileWriter().close()
+        raise
     DeferredFileWriter().write()
 
     # Print molecule Log messages
